@@ -32,6 +32,7 @@ comparison), which fails on concrete inputs (`C16_patchcmp_mixed_cycle`; the sec
 -/
 import Scalibr.Proofs.Worklist
 import Scalibr.Proofs.WorklistSort
+import Scalibr.Proofs.WorklistOutput
 import Scalibr.Proofs.Cache
 import Scalibr.Proofs.CacheLin
 import Scalibr.Spec.Worklist
@@ -59,7 +60,10 @@ theorem C16_tasks_confluent {τ : Type} [DecidableEq τ] (spawn : τ → List τ
   h.confluent P ps' h' (List.Perm.refl _)
 
 /-- **C16_compare_total** (since fix 09778cd0): `Patch.Compare` returns 0 only for identical patches — every patch, any
-version comparison.  Key 6 (per update VersionTo, VersionFrom, Transitive, Type; then the fixed and the introduced ids)
+version comparison.  "Identical" is identity of the REDUCED model `Patch` (Model/Worklist.lean): an update is (Name, VersionFrom,
+VersionTo, Transitive, alias) where the alias string stands for `PackageUpdate.Type` as far as the universes vary it, and a
+fixed / introduced vulnerability is its ID (`result.Vuln.Packages` and `Unactionable` are not modelled: the Go comparison does
+not look at them either; they are functions of the ID and the graphs).  Key 6 (per update VersionTo, VersionFrom, Transitive, Type; then the fixed and the introduced ids)
 separates whatever keys 1–5 leave tied. -/
 theorem C16_compare_total (vc : Str → Str → Int) (a b : Patch) (h : Patch.compare vc a b = 0) : a = b :=
   compare_eq_zero_imp_eq vc a b h
@@ -67,6 +71,58 @@ theorem C16_compare_total (vc : Str → Str → Int) (a b : Patch) (h : Patch.co
 /-- hence `CmpEqImpliesEq`, formerly a hypothesis of the three theorems below, is a theorem of the model -/
 theorem C16_cmpeq_holds (vc : Str → Str → Int) (c : List Patch) : CmpEqImpliesEq vc c :=
   fun a _ b _ h => compare_eq_zero_imp_eq vc a b h
+
+
+/-! ### "sorted and de-duplicated" -/
+
+/-- **C16_output_members** (no hypothesis): whatever the version comparison does, the list `ComputePatches` returns contains
+exactly the patches that were collected — `CompactFunc` only ever drops a patch identical to its predecessor
+(`C16_compare_total`).  With `C16_confluent`: under any two complete delivery orders the results contain the same patches. -/
+theorem C16_output_members (patchFn : Task → Option Patch) (grouped : Bool) (vulns : List Str) (vc : Str → Str → Int)
+    (σ σ' : List Nat) (c c' : List Patch)
+    (h : exec (outCP patchFn) (spawnCP patchFn grouped) σ (initCP vulns) = some ⟨[], c⟩)
+    (h' : exec (outCP patchFn) (spawnCP patchFn grouped) σ' (initCP vulns) = some ⟨[], c'⟩) (p : Patch) :
+    (p ∈ sortCompact vc c ↔ p ∈ c) ∧ (p ∈ sortCompact vc c ↔ p ∈ sortCompact vc c') := by
+  have hp := C16_confluent patchFn grouped vulns σ σ' c c' h h'
+  refine ⟨mem_sortCompact vc c p, ?_⟩
+  rw [mem_sortCompact, mem_sortCompact]; exact hp.mem_iff
+
+/-- **C16_output_sorted_partial.**  Hypothesis: the version comparison is a strict weak order on a set `V` containing the
+target versions of the collected patches (the one hypothesis of `C16_final_partial`).  Then the returned list is STRICTLY
+increasing w.r.t. `Patch.Compare`: sorted, and no two entries compare equal. -/
+theorem C16_output_sorted_partial (patchFn : Task → Option Patch) (grouped : Bool) (vulns : List Str)
+    (V : Str → Prop) (vc : Str → Str → Int) (hvc : Cmp3 (fun x y => V x ∧ V y) vc) (σ : List Nat) (c : List Patch)
+    (h : exec (outCP patchFn) (spawnCP patchFn grouped) σ (initCP vulns) = some ⟨[], c⟩)
+    (hV : ∀ p ∈ c, ∀ u ∈ p.updates, V u.vto) :
+    (sortCompact vc c).Pairwise (fun a b => Patch.compare vc a b < 0) :=
+  sortCompact_strict V vc hvc c (fun p hp => ⟨collected_ok patchFn grouped vulns σ c h p hp, hV p hp⟩)
+
+/-- **C16_output_nodup_partial.**  Under the same hypothesis the returned list has no duplicates. -/
+theorem C16_output_nodup_partial (patchFn : Task → Option Patch) (grouped : Bool) (vulns : List Str)
+    (V : Str → Prop) (vc : Str → Str → Int) (hvc : Cmp3 (fun x y => V x ∧ V y) vc) (σ : List Nat) (c : List Patch)
+    (h : exec (outCP patchFn) (spawnCP patchFn grouped) σ (initCP vulns) = some ⟨[], c⟩)
+    (hV : ∀ p ∈ c, ∀ u ∈ p.updates, V u.vto) :
+    (sortCompact vc c).Nodup := by
+  have hs := C16_output_sorted_partial patchFn grouped vulns V vc hvc σ c h hV
+  have hok : ∀ p ∈ sortCompact vc c, PatchOK V p := fun p hp =>
+    have hpc := (mem_sortCompact vc c p).mp hp
+    ⟨collected_ok patchFn grouped vulns σ c h p hpc, hV p hpc⟩
+  have h3 := compare_cmp3 V vc hvc
+  refine (hs.imp_of_mem ?_)
+  intro a b ha _ hab e
+  subst e
+  have := h3.flip a a ⟨hok a ha, hok a ha⟩
+  omega
+
+/-- FULL-STRENGTH statement that does NOT hold: "the returned list is de-duplicated" without the hypothesis on the version
+comparison.  With mixed parsable / unparsable target versions (`C16_patchcmp_mixed_cycle`) the sort can leave identical patches
+apart, and `CompactFunc` only looks at neighbours: of the six collected patches (each twice) four survive, two of them equal. -/
+theorem C16_output_nodup_needs_order :
+    let p9 := one "a" "9.0.0" ["V"]
+    let p10 := one "a" "10.0.0" ["V"]
+    let p1x := one "a" "1x" ["V"]
+    (sortCompact demoVc [p9, p10, p1x, p9, p10, p1x]).length = 4 ∧ (sortCompact demoVc [p9, p10, p1x, p9, p10, p1x]).Nodup = False := by
+  decide
 
 /-- **C16_final_partial.** The value `ComputePatches` returns (sort by `Patch.Compare`, compact) is the same under any two
 complete schedules.  The ONE remaining hypothesis: the per-version comparison of step 5 is a strict weak order on a set `V`
@@ -347,7 +403,9 @@ run (`lrun_base`) — is a linearization:
     interval `[tLook, tRet]` (first critical section … result available);
  3. nothing else is in it: every `Get` entry belongs to a caller that has returned that result, or is blocked in `wg.Wait()`
     on a call whose (published) result it will return; no caller occurs twice;
- 4. its order is the order of the times `τ`.
+ 4. its order is the order of the times `τ`;
+ 5. its `GetMap` entries are, in order, exactly the maps the executed GetMap calls returned (`base.maps`), and its `SetMap`
+    entries are, in order, exactly the arguments of the executed SetMap actions.
  2 + 4 give the real-time clause: if call A's result was available before call B's first step (`tRet A < tLook B`), then
  `τ_A < τ_B`, so A precedes B.  "At most once per key per success" for the real fetch function is `C16_cache_once`
  (in the sequential history a waiter of a FAILED call counts as a miss whose fetch fails with the shared error). -/
@@ -360,11 +418,14 @@ theorem C16_cache_linearizable_partial (keyOf : Nat → Option K) (as : List Act
     (∀ τ t k r, (τ, LinOp.get t k r) ∈ l.lin →
       l.base.pcs t = .done k r ∨ ∃ c, l.base.pcs t = .waiting c k ∧ l.base.results c = some r) ∧
     (callers l.lin).Nodup ∧
-    l.lin.Pairwise (fun x y => x.1 ≤ y.1) := by
+    l.lin.Pairwise (fun x y => x.1 ≤ y.1) ∧
+    l.lin.filterMap (fun e => e.2.snapOf) = l.base.maps.reverse ∧
+    l.lin.filterMap (fun e => e.2.setOf) = as.filterMap Act.setOf := by
   intro l
   have h1 := linv_runFrom as (linit keyOf) (linv_init keyOf) hq
   have h2 := linv2_runFrom as (linit keyOf) (linv_init keyOf) (linv2_init keyOf) hq
-  exact ⟨lrun_base keyOf as, h1.spec, h1.done_lin, h1.lin_real, h2.nodup, h2.sorted⟩
+  have h3 := lin_snaps_sets as (linit keyOf) (by simp [linit, init])
+  exact ⟨lrun_base keyOf as, h1.spec, h1.done_lin, h1.lin_real, h2.nodup, h2.sorted, h3.1, by have := h3.2; simp only [linit, List.filterMap_nil, List.nil_append] at this; exact this⟩
 
 open Scalibr.Cache in
 /-- the real-time clause spelled out: a call whose result was available before another call's first step is linearized
@@ -374,7 +435,7 @@ theorem C16_cache_realtime (keyOf : Nat → Option K) (as : List Act) (hq : RunO
     (hA : (lrun keyOf as).base.pcs tA = .done kA rA) (hB : (lrun keyOf as).base.pcs tB = .done kB rB)
     (hrt : ∀ b a, (lrun keyOf as).tRet tA = some b → (lrun keyOf as).tLook tB = some a → b < a) :
     ∃ τA τB, (τA, LinOp.get tA kA rA) ∈ (lrun keyOf as).lin ∧ (τB, LinOp.get tB kB rB) ∈ (lrun keyOf as).lin ∧ τA < τB := by
-  obtain ⟨_, _, hd, _, _, _⟩ := C16_cache_linearizable_partial keyOf as hq
+  obtain ⟨_, _, hd, _, _, _, _, _⟩ := C16_cache_linearizable_partial keyOf as hq
   obtain ⟨τA, aA, bA, hmA, _, hbA, _, h2A⟩ := hd tA kA rA hA
   obtain ⟨τB, aB, bB, hmB, haB, _, h1B, _⟩ := hd tB kB rB hB
   have := hrt bA aB hbA haB
